@@ -1318,11 +1318,16 @@ func (up4 *UP4) modifyUP4ForwardingConfiguration(pdrs []pdr, allFARs []far, qers
 		// as a default value is installed if no application filtering rule exists
 		var applicationID uint8 = DefaultApplicationID
 
+		// set if this PDR is the first user of its application filter: if the write fails,
+		// the application must not stay behind as allocated
+		var newApplicationEntry *p4.TableEntry
+
 		if !pdr.IsAppFilterEmpty() {
 			if methodType != p4.Update_DELETE {
 				if entry, appID, err = up4.addInternalApplicationIDAndGetP4rtEntry(pdr); err == nil {
 					if entry != nil {
 						entriesToApply = append(entriesToApply, entry)
+						newApplicationEntry = entry
 					}
 
 					applicationID = appID
@@ -1377,8 +1382,19 @@ func (up4 *UP4) modifyUP4ForwardingConfiguration(pdrs []pdr, allFARs []far, qers
 
 		err = up4.p4client.ApplyTableEntries(methodType, entriesToApply...)
 		if err != nil {
+			releaseNewApplication := func() {
+				if newApplicationEntry == nil {
+					return
+				}
+
+				up4.removeInternalApplicationIDAndGetP4rtEntry(pdr)
+				// the entry may or may not have been written; make sure it is gone
+				_ = up4.p4client.ApplyTableEntries(p4.Update_DELETE, newApplicationEntry)
+			}
+
 			p4Error, ok := err.(*P4RuntimeError)
 			if !ok {
+				releaseNewApplication()
 				// not a P4Runtime error, returning err
 				return ErrOperationFailedWithReason("applying table entries to UP4", err.Error())
 			}
@@ -1395,6 +1411,8 @@ func (up4 *UP4) modifyUP4ForwardingConfiguration(pdrs []pdr, allFARs []far, qers
 				if methodType == p4.Update_DELETE && status.GetCanonicalCode() == int32(codes.NotFound) {
 					continue
 				}
+
+				releaseNewApplication()
 
 				return ErrOperationFailedWithReason("applying table entries to UP4", p4Error.Error())
 			}
